@@ -176,17 +176,18 @@ def Item.ranks : List Item → List Nat
 
 def maxRank (rs : List Nat) : Nat := rs.foldl max 0
 
-/-- `_get_common_type_dims` (repaired, D8): the common dtype is `np.result_type` of the dtypes of
-all non-None entries, the rank is the maximum of their ranks; `(int64, 1)` when there is no
-non-None entry.  `np.asarray` of a ragged entry raises `ValueError`. -/
+/-- `_get_common_type_dims` (repaired, D8): the common dtype is `np.result_type` of the (distinct,
+sorted) dtypes of all non-None entries, the rank is the maximum of their ranks; `(int64, 1)` when
+there is no non-None entry.  `np.asarray` of a ragged entry raises `ValueError`.
+Entries of dtype `object` (not a geff dtype) are outside the model: numpy 2.5's many-argument
+`result_type` is itself order dependent on {float16, str/bytes, object}. -/
 def getCommonTypeDims (xs : List Item) : Outcome (Dtype × Nat) :=
   if xs.contains .inhomogeneous then .valueError
-  else match Item.dtypes xs with
-    | [] => .ok (.i64, 1)
-    | ds =>
-      match Dtype.resultType ds with
-      | some d => .ok (d, maxRank (Item.ranks xs))
-      | none => .unmodelled "dtype outside the tabulated ones"
+  else if (Item.dtypes xs).isEmpty then .ok (.i64, 1)
+  else if (Item.dtypes xs).contains .obj then .unmodelled "object dtype"
+  else match Dtype.resultType (Item.dtypes xs) with
+    | some d => .ok (d, maxRank (Item.ranks xs))
+    | none => .unmodelled "dtype outside the tabulated ones"
 
 /-- IEEE-754 binary64 bit pattern of a natural number, round-to-nearest-even -/
 def natToF64Bits (n : Nat) : Nat :=
@@ -247,12 +248,20 @@ def normItem (dt : Dtype) (nd : Nat) : Item → Option (NdArr × Bool)
     | some fl => some ({ dtype := dt, shape := List.replicate (nd - a.ndim) 1 ++ a.shape, flat := fl }, false)
     | none => none
 
+/-- the loop of `construct_var_len_props` -/
+def normAll (dt : Dtype) (nd : Nat) : List Item → Option (List (NdArr × Bool))
+  | [] => some []
+  | x :: t =>
+    match normItem dt nd x, normAll dt nd t with
+    | some y, some l => some (y :: l)
+    | _, _ => none
+
 /-- `construct_var_len_props`: `(values entries, missing flags)`; Python returns `missing = None`
 when no flag is set (`missingOut`). -/
 def constructVarLenProps (xs : List Item) : Outcome (List NdArr × List Bool) :=
   match getCommonTypeDims xs with
   | .ok (dt, nd) =>
-    match xs.mapM (normItem dt nd) with
+    match normAll dt nd xs with
     | some l => .ok (l.map (·.1), l.map (·.2))
     | none => .unmodelled "number -> string cast"
   | .valueError => .valueError
